@@ -37,6 +37,8 @@ def run(ctx):
     r3(ctx)
     r4(ctx)
     ctx.min_instances('C19.R4', 3)
+    r5(ctx)
+    ctx.min_instances('C19.R5', 4)
     ctx.min_instances('C19.R1', 8)
     ctx.min_instances('C19.R2', 9)
     ctx.min_instances('C19.R3', 4)
@@ -407,3 +409,66 @@ def r4(ctx):
                 'ids and temperature rows must be extended once each, in the '
                 'same block (same assembly type, same location)',
                 key=fi.full + ' | lockstep extension')
+
+
+# ---------------------------------------------------------------------------
+# R5: column map of the clad split
+
+def _slice_range(sl, n):
+    """Concrete index list selected by a slice / index node on length n."""
+    if isinstance(sl, ast.Slice):
+        lo = U.const_eval(sl.lower) if sl.lower is not None else None
+        hi = U.const_eval(sl.upper) if sl.upper is not None else None
+        return list(range(n))[slice(lo, hi)]
+    v = U.const_eval(sl)
+    return [list(range(n))[v]]
+
+
+def r5(ctx):
+    fi = ctx.repo.func('hotspot', '_split_clad_subfactors')
+    subf = fi.params[0]
+    stores = []
+    for t, st in U.stores(fi.node):
+        if isinstance(t, ast.Subscript) and isinstance(t.slice, ast.Tuple) \
+                and len(t.slice.elts) == 2 and isinstance(st, ast.Assign) \
+                and isinstance(st.value, ast.Subscript) and isinstance(
+                    st.value.slice, ast.Tuple) and \
+                len(st.value.slice.elts) == 2 and \
+                src(st.value.value).startswith(subf):
+            stores.append((t, st))
+    if len(stores) < 2:
+        raise AnalysisError('_split_clad_subfactors: column stores')
+
+    def sigma(j):
+        return j if j <= 2 else (2 if j == 3 else j - 1)
+    for W in (3, 4, 5, 6):
+        new = [None] * (W + 1)
+        bad = None
+        for t, st in sorted(stores, key=lambda x: x[1].lineno):
+            try:
+                dst = _slice_range(t.slice.elts[1], W + 1)
+                sr = _slice_range(st.value.slice.elts[1], W)
+            except (ValueError, IndexError, TypeError):
+                raise AnalysisError('_split_clad_subfactors: column slice '
+                                    'not constant')
+            if len(dst) != len(sr):
+                bad = 'columns %s <- %s have different widths (the store ' \
+                      'would raise or broadcast)' % (dst, sr)
+                break
+            for a, b_ in zip(dst, sr):
+                new[a] = b_
+        if bad is None:
+            miss = [j for j, v in enumerate(new) if v is None]
+            wrong = [(j, v) for j, v in enumerate(new)
+                     if v is not None and v != sigma(j)]
+            if miss:
+                bad = 'new column(s) %s are never written (stay 0: the ' \
+                      'corresponding temperature rise is dropped)' % miss
+            elif wrong:
+                bad = 'new column %d is taken from old column %d, ' \
+                      'expected %d' % (wrong[0][0], wrong[0][1],
+                                       sigma(wrong[0][0]))
+        ctx.require(bad is None, 'C19.R5', fi, stores[0][1],
+                    'table with %d term columns: %s' % (W, bad),
+                    note='width %d' % W,
+                    key='%s | column map width %d' % (fi.full, W))
